@@ -212,6 +212,10 @@ type Check struct {
 // everything observable; `vcheck solo <json>` prints it (used by C03 for fresh-process references).
 var Solo func(projectJSON string) string
 
+// RacePass, when set, runs the concurrency harness bodies on free-running goroutines
+// (`vcheck racepass`, meant for a -race build).
+var RacePass func()
+
 var registry = map[string]*Check{}
 
 func Register(c *Check)       { registry[c.ID] = c }
